@@ -133,7 +133,7 @@ UNIT_TRUST = {
         "parked pipe ends (BW.parked): the read end make_pipe() returns and every end moved into a Communicator count as held by the library until the modelled drop (drop_glue_opt_file, drop_glue_communicator: R6 of `x.take();` / `drop(comm)` and of the `?` exits of capture / setup_communicate, locals dropped in reverse order of declaration) or until an unlimited Communicator::read succeeds (everything delivered, every stream at EOF: unit comm); a Communicator returned to the caller by communicate() is the caller's to look after (ghost hand_over); the public terminators assume nothing is parked when they are called",
         "R6 seams: collect_execs = iterable.into_iter().collect() in Pipeline::from_exec_iter (any IntoIterator<Item = Exec> is represented by the sequence it yields; its documented panic for fewer than two elements is a precondition); map_stderr / map_detached = into_iter().map(f).collect(); Vec::drain(..1)/drain(len-1..) = remove(0)/pop(); enumerate loop = index loop with remove(0); Vec::extend(iter.map(f)) = push loop; env_retain_ne = Vec::retain with a destructuring closure; Path = its OsStr",
         "`impl AsRef<OsStr>` arguments are modelled by a local AsRef trait exposing the bytes; `impl Into<..>` parameters are rewritten to named type parameters (identical semantics)",
-        "From<Redirection> for InputRedirection: a trait method cannot carry a precondition in Verus, so the impl itself is external_body with the specification from_spec, and its BODY is verified as the free-standing function input_redirection_from (same text, extracted from /repo) against that specification under the precondition the callers establish (no Merge on an input: the documented panic); the NullFile conversions are not verified here",
+        "From<Redirection> for InputRedirection: a trait method cannot carry a precondition in Verus, so the impl itself is external_body with the specification from_spec, and its BODY is verified as the free-standing function input_redirection_from (same text, extracted from /repo) against that specification under the precondition the callers establish (no Merge on an input: the documented panic); the two NullFile conversions are verified the same way (R6: OpenOptions::new().read|write(true).open(NULL_DEVICE).unwrap() = open_null_device_read|write; that the null device exists and can be opened is assumed): an input is opened for reading, an output for writing",
         "format_env (duplicate keys: last wins) is outside this unit",
     ],
     "spawn": [
